@@ -1071,7 +1071,78 @@ def selftest():
     return 0 if (lost and not ok_tie) else 1
 
 
+REPO_MUTANTS = [
+    # (file, old text, new text, families that must catch it)
+    ("honeycomb-core/src/cmap/dim2/utils.rs",
+     """        atomically(|trans| {
+            self.betas[(0, dart_id)].write(trans, b0)?;
+            self.betas[(1, dart_id)].write(trans, b1)?;
+            self.betas[(2, dart_id)].write(trans, b2)?;
+            Ok(())
+        });""",
+     """        atomically(|trans| self.betas[(0, dart_id)].write(trans, b0));
+        atomically(|trans| self.betas[(1, dart_id)].write(trans, b1));
+        atomically(|trans| self.betas[(2, dart_id)].write(trans, b2));""", "setbs"),
+    ("honeycomb-kernels/src/remeshing/cut.rs",
+     """        (Some(v1), Some(v2)) => Vertex2::average(&v1, &v2),
+        _ => retry()?,
+    };
+    map.write_vertex(t, nd1, new_v)?;""",
+     """        (Some(v1), Some(v2)) => Vertex2::average(&v1, &v2),
+        _ => unreachable!(),
+    };
+    map.write_vertex(t, nd1, new_v)?;""", "remesh"),
+]
+
+
+def selftest_repo():
+    """scratch copy of /repo under /tmp with two seeded changes (set_betas split into three transactions; the retry() arm
+    of cut_outer_edge replaced by unreachable!()), scratch copy of the explorer built against it: the setbs family must
+    report a non-serializable read, the remesh family a panic.  /repo itself is never touched."""
+    scratch_repo = "/tmp/c07-repo-mut"
+    shutil.rmtree(scratch_repo, ignore_errors=True)
+    shutil.copytree(hv.REPO, scratch_repo, ignore=shutil.ignore_patterns("target", ".git"))
+    for rel, old, new, _ in REPO_MUTANTS:
+        p = os.path.join(scratch_repo, rel)
+        src = open(p).read()
+        if src.count(old) < 1:
+            print(f"mutation site not found in {rel}")
+            return 2
+        open(p, "w").write(src.replace(old, new, 1))   # first occurrence (cut.rs: cut_outer_edge)
+    scratch = os.path.join(hv.BUILD, "sched-selftest-repo")
+    shutil.rmtree(scratch, ignore_errors=True)
+    shutil.copytree(SCHED, scratch, ignore=shutil.ignore_patterns("target"))
+    cfg = os.path.join(scratch, ".cargo", "config.toml")
+    text = open(cfg).read().replace("/verif/.build/sched-target", os.path.join(hv.BUILD, "sched-selftest-repo-target"))
+    open(cfg, "w").write(text)
+    man = os.path.join(scratch, "hcsched", "Cargo.toml")
+    open(man, "w").write(open(man).read().replace('"/repo/', f'"{scratch_repo}/'))
+    rc, out = hv.sh(["cargo", "build", "--release", "--offline"], cwd=scratch, timeout=3000)
+    if rc != 0:
+        print(out[-3000:])
+        return 2
+    binary = os.path.join(hv.BUILD, "sched-selftest-repo-target", "release", "hcsched")
+    hv.cargo_build()
+    hv.lake_build(["hcmodel"])
+    scs = [s for s in scenarios("quick", 20260926) if s.tags & {"setbs", "remesh", "remesh-random"}]
+    r, res = check_scenarios(binary, scs, jobs=4)
+    ok = True
+    for fam, want in (("setbs", "not-serializable"), ("remesh", "panic")):
+        hits = [v for v in r["violations"] if fam in v.get("sig", "") and str(v.get("replay", {}).get("oracle_failure", "")).startswith(want)]
+        print(f"family {fam}: {len(hits)} violation(s) of kind {want!r}")
+        for v in hits[:2]:
+            print("   ", v["what"][:500])
+            print("      witness schedule:", v["replay"].get("witness_schedule"))
+        ok = ok and bool(hits)
+    other = [v for v in r["violations"] if not str(v.get("replay", {}).get("oracle_failure", "")).startswith(("not-serializable", "panic"))]
+    print(f"other violations: {len(other)}", [v["what"][:200] for v in other[:3]])
+    print("SELFTEST-REPO", "PASSED: both seeded changes are caught by the quick families" if ok else "FAILED")
+    return 0 if ok else 1
+
+
 if __name__ == "__main__":
     if "--selftest" in sys.argv:
         sys.exit(selftest())
+    if "--selftest-repo" in sys.argv:
+        sys.exit(selftest_repo())
     print(__doc__)
